@@ -3,3 +3,22 @@
 pub enum Sign { Positive, Negative }
 pub use Sign::*;
 pub open spec fn sgn(s: Sign) -> int { match s { Sign::Positive => 1, Sign::Negative => -1 } }
+
+// crate::primitive::PrimitiveSigned as seen by the kernels. The contract of to_sign_magnitude is ASSUMED here;
+// the real implementation (a macro-generated impl in integer/src/primitive.rs) is proved for all widths by the
+// Kani group int_primitive.
+pub trait PrimitiveSigned: Sized {
+    type Unsigned;
+    spec fn sv(self) -> int;
+    spec fn uv(u: Self::Unsigned) -> int;
+    fn to_sign_magnitude(self) -> (ret: (Sign, Self::Unsigned))
+        ensures self.sv() >= 0 ==> ret.0 == Sign::Positive && Self::uv(ret.1) == self.sv(),
+            self.sv() < 0 ==> ret.0 == Sign::Negative && Self::uv(ret.1) == -self.sv();
+}
+impl PrimitiveSigned for SignedWord {
+    type Unsigned = Word;
+    open spec fn sv(self) -> int { self as int }
+    open spec fn uv(u: Word) -> int { u as int }
+    #[verifier::external_body]
+    fn to_sign_magnitude(self) -> (Sign, Word) { unimplemented!() }
+}
